@@ -10,8 +10,8 @@ Local Open Scope Z_scope.
 
 (* the states reachable from the initial state by accepted posts, waits and cancels, with the concrete
    (stable insertion) sort *)
-Definition reach (ops : list nbop) : nbstate * disk :=
-  nb_run isort_reqs isort_segs (init_state, empty_disk) ops.
+Definition reach (fx : bool) (ops : list nbop) : nbstate * disk :=
+  nb_run isort_reqs isort_segs fx (init_state, empty_disk) ops.
 
 (* two variables of a CDF file: a fixed int a[4] at 512, a record variable int b[t][4] at 528, recsize 16 *)
 Definition gA : geom := mkgeom 512 4 [4] 16 1.
@@ -31,10 +31,10 @@ Qed.
 
 (* ---------------------------------------------------------------- F3: statuses *)
 (* full statement: the status pointer of every completed request is the slot of a position that names it *)
-Definition status_own_full : Prop :=
+Definition status_own_full (fx : bool) : Prop :=
   forall ops ids stat0, Forall nbop_ok ops -> Zlen stat0 = Zlen ids ->
-    let st := fst (reach ops) in
-    let ex := extract_reqs st (Zlen ids) ids true stat0 in
+    let st := fst (reach fx ops) in
+    let ex := extract_reqs fx st (Zlen ids) ids true stat0 in
     ex_err ex = NC_NOERR ->
     forall l i, In l (put_lead (ex_st ex) ++ get_lead (ex_st ex)) -> l_to_free l = true ->
                 l_status l = Some i -> znth ids i NC_REQ_NULL = l_id l.
@@ -48,14 +48,14 @@ Proof. apply Forall_cons; [|apply Forall_cons; [|apply Forall_nil]]; cbn [nbop_o
 (* witness: two pending puts (ids 0 and 2) named in the order [2; 0]: the number of ids equals the number
    of pending puts and no get is pending, so extract_reqs takes the "same as NC_PUT_REQ_ALL" shortcut
    and binds statuses[0] to the request with id 0 although req_ids[0] = 2 *)
-Theorem status_own_refuted : ~ status_own_full.
+Theorem status_own_old_refuted : ~ status_own_full false.
 Proof.
   intro H.
   specialize (H two_puts [2; 0] [-99; -99] two_puts_ok eq_refl).
   cbv zeta in H.
-  assert (E : ex_err (extract_reqs (fst (reach two_puts)) (Zlen [2; 0]) [2; 0] true [-99; -99]) = NC_NOERR)
+  assert (E : ex_err (extract_reqs false (fst (reach false two_puts)) (Zlen [2; 0]) [2; 0] true [-99; -99]) = NC_NOERR)
     by (vm_compute; reflexivity).
-  specialize (H E (hd dummy_lead (put_lead (ex_st (extract_reqs (fst (reach two_puts)) (Zlen [2; 0]) [2; 0] true [-99; -99])))) 0).
+  specialize (H E (hd dummy_lead (put_lead (ex_st (extract_reqs false (fst (reach false two_puts)) (Zlen [2; 0]) [2; 0] true [-99; -99])))) 0).
   assert (C : znth [2; 0] 0 NC_REQ_NULL = 0).
   { apply H; vm_compute; [left; reflexivity | reflexivity | reflexivity]. }
   vm_compute in C. discriminate C.
@@ -63,27 +63,27 @@ Qed.
 
 (* ---------------------------------------------------------------- F3: frame *)
 (* full statement: a request whose id is not passed to the wait stays pending *)
-Definition wait_subset_frame_full : Prop :=
+Definition wait_subset_frame_full (fx : bool) : Prop :=
   forall ops a file, Forall nbop_ok ops -> wa_n a = Zlen (wa_ids a) ->
-    let st := fst (reach ops) in
-    let r := fst (wait_one isort_reqs isort_segs st a file) in
+    let st := fst (reach fx ops) in
+    let r := fst (wait_one isort_reqs isort_segs fx st a file) in
     wr_rc r = NC_NOERR ->
     forall l, In l (put_lead st ++ get_lead st) -> ~ In (l_id l) (wa_ids a) ->
               In (l_id l) (map l_id (put_lead (wr_st r) ++ get_lead (wr_st r))).
 
 (* witness: two pending puts, wait(2, [NC_REQ_NULL; 0]): the request with id 2 is completed too *)
-Theorem wait_subset_frame_refuted : ~ wait_subset_frame_full.
+Theorem wait_subset_frame_old_refuted : ~ wait_subset_frame_full false.
 Proof.
   intro H.
   pose (a := mkwa 2 [NC_REQ_NULL; 0] true [-99; -99]).
   specialize (H two_puts a empty_disk two_puts_ok eq_refl).
   cbv zeta in H.
-  assert (E : wr_rc (fst (wait_one isort_reqs isort_segs (fst (reach two_puts)) a empty_disk)) = NC_NOERR)
+  assert (E : wr_rc (fst (wait_one isort_reqs isort_segs false (fst (reach false two_puts)) a empty_disk)) = NC_NOERR)
     by (vm_compute; reflexivity).
-  specialize (H E (znth (put_lead (fst (reach two_puts))) 1 dummy_lead)).
-  assert (C : In (l_id (znth (put_lead (fst (reach two_puts))) 1 dummy_lead))
-                 (map l_id (put_lead (wr_st (fst (wait_one isort_reqs isort_segs (fst (reach two_puts)) a empty_disk)))
-                            ++ get_lead (wr_st (fst (wait_one isort_reqs isort_segs (fst (reach two_puts)) a empty_disk)))))).
+  specialize (H E (znth (put_lead (fst (reach false two_puts))) 1 dummy_lead)).
+  assert (C : In (l_id (znth (put_lead (fst (reach false two_puts))) 1 dummy_lead))
+                 (map l_id (put_lead (wr_st (fst (wait_one isort_reqs isort_segs false (fst (reach false two_puts)) a empty_disk)))
+                            ++ get_lead (wr_st (fst (wait_one isort_reqs isort_segs false (fst (reach false two_puts)) a empty_disk)))))).
   { apply H.
     - vm_compute. right. left. reflexivity.
     - vm_compute. intros [X | [X | X]]; [discriminate X | discriminate X | exact X]. }
@@ -130,25 +130,25 @@ Qed.
 Definition newnumrecs_loop_old (st : nbstate) (nwl : Z) : Z :=
   fold_left (fun m l => if g_isrec (l_geom l) && l_to_free l then Z.max m (l_max_rec l) else m)
             (zfirstn nwl (put_lead st)) (st_numrecs st).
-Definition newnumrecs_old_covers_flagged_full : Prop :=
+Definition newnumrecs_old_covers_flagged_full (fx : bool) : Prop :=
   forall ops a, Forall nbop_ok ops ->
-    let ex := extract_reqs (fst (reach ops)) (wa_n a) (wa_ids a) (wa_has_stat a) (wa_stat0 a) in
+    let ex := extract_reqs fx (fst (reach fx ops)) (wa_n a) (wa_ids a) (wa_has_stat a) (wa_stat0 a) in
     ex_err ex = NC_NOERR ->
     forall l, In l (put_lead (ex_st ex)) -> l_to_free l = true -> g_isrec (l_geom l) = true ->
               l_max_rec l <= newnumrecs_loop_old (ex_st ex) (ex_nwl ex).
 (* witness (finding F1, fixed): iput on the fixed variable (id 0), iput on record 5 of the record variable (id 2),
    wait naming only id 2: the old loop inspects lead 0 (not flagged) and stops *)
-Theorem newnumrecs_old_refuted : ~ newnumrecs_old_covers_flagged_full.
+Theorem newnumrecs_old_refuted : ~ newnumrecs_old_covers_flagged_full false.
 Proof.
   intro H.
   pose (a := mkwa 1 [2] true [-99]).
   specialize (H fixed_then_record a fixed_then_record_ok). cbv zeta in H.
-  assert (E : ex_err (extract_reqs (fst (reach fixed_then_record)) (wa_n a) (wa_ids a) (wa_has_stat a) (wa_stat0 a)) = NC_NOERR)
+  assert (E : ex_err (extract_reqs false (fst (reach false fixed_then_record)) (wa_n a) (wa_ids a) (wa_has_stat a) (wa_stat0 a)) = NC_NOERR)
     by (vm_compute; reflexivity).
-  specialize (H E (znth (put_lead (ex_st (extract_reqs (fst (reach fixed_then_record)) (wa_n a) (wa_ids a) (wa_has_stat a) (wa_stat0 a)))) 1 dummy_lead)).
-  assert (C : l_max_rec (znth (put_lead (ex_st (extract_reqs (fst (reach fixed_then_record)) (wa_n a) (wa_ids a) (wa_has_stat a) (wa_stat0 a)))) 1 dummy_lead)
-              <= newnumrecs_loop_old (ex_st (extract_reqs (fst (reach fixed_then_record)) (wa_n a) (wa_ids a) (wa_has_stat a) (wa_stat0 a)))
-                                     (ex_nwl (extract_reqs (fst (reach fixed_then_record)) (wa_n a) (wa_ids a) (wa_has_stat a) (wa_stat0 a)))).
+  specialize (H E (znth (put_lead (ex_st (extract_reqs false (fst (reach false fixed_then_record)) (wa_n a) (wa_ids a) (wa_has_stat a) (wa_stat0 a)))) 1 dummy_lead)).
+  assert (C : l_max_rec (znth (put_lead (ex_st (extract_reqs false (fst (reach false fixed_then_record)) (wa_n a) (wa_ids a) (wa_has_stat a) (wa_stat0 a)))) 1 dummy_lead)
+              <= newnumrecs_loop_old (ex_st (extract_reqs false (fst (reach false fixed_then_record)) (wa_n a) (wa_ids a) (wa_has_stat a) (wa_stat0 a)))
+                                     (ex_nwl (extract_reqs false (fst (reach false fixed_then_record)) (wa_n a) (wa_ids a) (wa_has_stat a) (wa_stat0 a)))).
   { apply H; vm_compute; [right; left; reflexivity | reflexivity | reflexivity]. }
   vm_compute in C. apply C. reflexivity.
 Qed.
@@ -156,11 +156,11 @@ Qed.
 (* ---------------------------------------------------------------- F2: reads *)
 (* full statement: the buffers of the completed gets hold what the blocking reads deliver, whatever the
    requests address (reads may overlap freely) *)
-Definition wait_refines_blocking_get_full : Prop :=
+Definition wait_refines_blocking_get_full (fx : bool) : Prop :=
   forall ops a file, Forall nbop_ok ops ->
-    let st := fst (reach ops) in
-    let ex := extract_reqs st (wa_n a) (wa_ids a) (wa_has_stat a) (wa_stat0 a) in
-    let r := fst (wait_one isort_reqs isort_segs st a file) in
+    let st := fst (reach fx ops) in
+    let ex := extract_reqs fx st (wa_n a) (wa_ids a) (wa_has_stat a) (wa_stat0 a) in
+    let r := fst (wait_one isort_reqs isort_segs fx st a file) in
     wr_rc r = NC_NOERR ->
     disk_eq (st_mem (wr_st r))
             (fold_left (fun m l => blocking_get file m l) (flagged (get_lead (ex_st ex))) (st_mem st)).
@@ -173,17 +173,17 @@ Proof. apply Forall_cons; [|apply Forall_cons; [|apply Forall_nil]]; cbn [nbop_o
 
 (* witness: two gets of the same two elements completed by one wait: merge_requests drops the covered
    segment of the second request, its buffer (address 2000) is never filled *)
-Theorem wait_refines_blocking_get_refuted : ~ wait_refines_blocking_get_full.
+Theorem wait_refines_blocking_get_refuted : forall fx, ~ wait_refines_blocking_get_full fx.
 Proof.
-  intro H.
+  intros fx H.
   pose (a := mkwa NC_REQ_ALL [] false []).
   pose (file := dk_write empty_disk 512 [11; 12; 13; 14; 15; 16; 17; 18]).
   specialize (H two_gets a file two_gets_ok).
   cbv zeta in H.
-  assert (E : wr_rc (fst (wait_one isort_reqs isort_segs (fst (reach two_gets)) a file)) = NC_NOERR)
-    by (vm_compute; reflexivity).
+  assert (E : wr_rc (fst (wait_one isort_reqs isort_segs fx (fst (reach fx two_gets)) a file)) = NC_NOERR)
+    by (destruct fx; vm_compute; reflexivity).
   specialize (H E 2000).
-  vm_compute in H. discriminate H.
+  destruct fx; vm_compute in H; discriminate H.
 Qed.
 
 (* ====================================================================== *)
@@ -237,34 +237,35 @@ Proof. exact (isort_sorter_ok seg s_off). Qed.
 (* ====================================================================== *)
 From Pnc Require Import Proofs_NbWait.
 
-Lemma extract_mem : forall st n ids hs stat0, st_mem (ex_st (extract_reqs st n ids hs stat0)) = st_mem st.
+(* extraction touches only the four queues *)
+Lemma extract_fields : forall fx st n ids hs stat0,
+  st_mem (ex_st (extract_reqs fx st n ids hs stat0)) = st_mem st /\
+  maxPutID (ex_st (extract_reqs fx st n ids hs stat0)) = maxPutID st /\
+  maxGetID (ex_st (extract_reqs fx st n ids hs stat0)) = maxGetID st /\
+  st_numrecs (ex_st (extract_reqs fx st n ids hs stat0)) = st_numrecs st.
 Proof.
-  intros st n ids hs stat0. unfold extract_reqs.
-  destruct (n <? 0) eqn:E0.
-  - destruct ((n =? NC_PUT_REQ_ALL) || (n =? NC_REQ_ALL)); destruct ((n =? NC_GET_REQ_ALL) || (n =? NC_REQ_ALL)); reflexivity.
-  - destruct ((Zlen (get_reqs st) =? 0) && (n =? Zlen (put_lead st))); [reflexivity|].
-    destruct ((Zlen (put_reqs st) =? 0) && (n =? Zlen (get_lead st))); [reflexivity|].
-    destruct ((n =? Zlen (put_lead st) + Zlen (get_lead st)) && negb hs); [reflexivity|].
-    destruct (ex_mark ids 0 hs (put_lead st) (get_lead st) stat0 0 0 0 0 NC_NOERR)
-      as [[[[[[[pl1 gl1] stat1] nwl] nwr] nrl] nrr] err].
-    destruct (negb (err =? NC_NOERR)); [reflexivity|].
-    destruct (ex_copy ids pl1 gl1 (put_reqs st) (get_reqs st)) as [[ids' pe] ge].
-    destruct (if nwr =? 0 then (pl1, put_reqs st) else coalesce_nonlead pl1 (put_reqs st) 0) as [pl2 pr2].
-    destruct (if nrr =? 0 then (gl1, get_reqs st) else coalesce_nonlead gl1 (get_reqs st) 0) as [gl2 gr2].
-    reflexivity.
+  intros fx st n ids hs stat0. unfold extract_reqs. cbv zeta.
+  destruct (ex_mark ids 0 hs (put_lead st) (get_lead st) stat0 0 0 0 0 NC_NOERR)
+    as [[[[[[[pl1 gl1] stat1] nwl] nwr] nrl] nrr] err].
+  destruct (ex_copy ids pl1 gl1 (put_reqs st) (get_reqs st)) as [[ids' pe] ge].
+  destruct (if nwr =? 0 then (pl1, put_reqs st) else coalesce_nonlead pl1 (put_reqs st) 0) as [pl2 pr2].
+  destruct (if nrr =? 0 then (gl1, get_reqs st) else coalesce_nonlead gl1 (get_reqs st) 0) as [gl2 gr2].
+  repeat match goal with |- context [if ?c then _ else _] => destruct c end; repeat split; reflexivity.
 Qed.
+Lemma extract_mem : forall fx st n ids hs stat0, st_mem (ex_st (extract_reqs fx st n ids hs stat0)) = st_mem st.
+Proof. intros. apply extract_fields. Qed.
 
 (* the file after an independent wait: ONE write built from the extracted put requests *)
-Lemma wait_one_file : forall sr ss st a file,
-  ex_err (extract_reqs st (wa_n a) (wa_ids a) (wa_has_stat a) (wa_stat0 a)) = NC_NOERR ->
-  snd (wait_one sr ss st a file) =
-  (if 0 <? Zlen (ex_put (extract_reqs st (wa_n a) (wa_ids a) (wa_has_stat a) (wa_stat0 a)))
+Lemma wait_one_file : forall sr ss fx st a file,
+  ex_err (extract_reqs fx st (wa_n a) (wa_ids a) (wa_has_stat a) (wa_stat0 a)) = NC_NOERR ->
+  snd (wait_one sr ss fx st a file) =
+  (if 0 <? Zlen (ex_put (extract_reqs fx st (wa_n a) (wa_ids a) (wa_has_stat a) (wa_stat0 a)))
    then mpi_write file (st_mem st)
-          (aggregate sr ss (put_lead (ex_st (extract_reqs st (wa_n a) (wa_ids a) (wa_has_stat a) (wa_stat0 a))))
-                     (ex_put (extract_reqs st (wa_n a) (wa_ids a) (wa_has_stat a) (wa_stat0 a))))
+          (aggregate sr ss (put_lead (ex_st (extract_reqs fx st (wa_n a) (wa_ids a) (wa_has_stat a) (wa_stat0 a))))
+                     (ex_put (extract_reqs fx st (wa_n a) (wa_ids a) (wa_has_stat a) (wa_stat0 a))))
    else file).
 Proof.
-  intros sr ss st a file Herr. unfold wait_one. rewrite Herr.
+  intros sr ss fx st a file Herr. unfold wait_one. rewrite Herr.
   replace (negb (NC_NOERR =? NC_NOERR)) with false by reflexivity.
   unfold commit_io. rewrite extract_mem.
   destruct (commit_post _ _ _) as [st3 ev]. reflexivity.
@@ -294,20 +295,20 @@ Proof. intros l H. apply Permutation_nil. exact H. Qed.
 (* MAIN (puts): for every state satisfying the queue invariant, every argument list (ALL forms, the
    shortcuts, any subset in any order), every qsort: if no file byte is written twice by the requests the
    wait completes, the file afterwards is the file after the corresponding blocking puts, issued in queue order *)
-Theorem wait_refines_blocking_put : forall sr ss st a file,
+Theorem wait_refines_blocking_put : forall sr ss fx st a file,
   sorter_ok a_start sr -> sorter_ok s_off ss -> nb_inv st ->
-  ex_err (extract_reqs st (wa_n a) (wa_ids a) (wa_has_stat a) (wa_stat0 a)) = NC_NOERR ->
+  ex_err (extract_reqs fx st (wa_n a) (wa_ids a) (wa_has_stat a) (wa_stat0 a)) = NC_NOERR ->
   NoDup (map fst (flat_map lead_pairs
-          (flagged (put_lead (ex_st (extract_reqs st (wa_n a) (wa_ids a) (wa_has_stat a) (wa_stat0 a))))))) ->
-  disk_eq (snd (wait_one sr ss st a file))
+          (flagged (put_lead (ex_st (extract_reqs fx st (wa_n a) (wa_ids a) (wa_has_stat a) (wa_stat0 a))))))) ->
+  disk_eq (snd (wait_one sr ss fx st a file))
           (fold_left (fun f l => blocking_put f (st_mem st) l)
-                     (flagged (put_lead (ex_st (extract_reqs st (wa_n a) (wa_ids a) (wa_has_stat a) (wa_stat0 a)))))
+                     (flagged (put_lead (ex_st (extract_reqs fx st (wa_n a) (wa_ids a) (wa_has_stat a) (wa_stat0 a)))))
                      file).
 Proof.
-  intros sr ss st a file Hsr Hss Hinv Herr Hnd.
+  intros sr ss fx st a file Hsr Hss Hinv Herr Hnd.
   rewrite wait_one_file by exact Herr. rewrite fold_blocking_put.
-  destruct (wait_put_pairs st (wa_n a) (wa_ids a) (wa_has_stat a) (wa_stat0 a) Hinv Herr) as [Hwf Hperm].
-  set (ex := extract_reqs st (wa_n a) (wa_ids a) (wa_has_stat a) (wa_stat0 a)) in *.
+  destruct (wait_put_pairs fx st (wa_n a) (wa_ids a) (wa_has_stat a) (wa_stat0 a) Hinv Herr) as [Hwf Hperm].
+  set (ex := extract_reqs fx st (wa_n a) (wa_ids a) (wa_has_stat a) (wa_stat0 a)) in *.
   assert (Hnd' : NoDup (map fst (flat_map areq_pairs (map (annotate (put_lead (ex_st ex))) (ex_put ex))))).
   { eapply Permutation_NoDup; [|exact Hnd]. apply Permutation_map. apply Permutation_sym. exact Hperm. }
   destruct (0 <? Zlen (ex_put ex)) eqn:Ez.
@@ -321,16 +322,16 @@ Proof.
 Qed.
 
 (* ... and the order in which the blocking puts are issued does not matter *)
-Corollary wait_refines_blocking_put_any_order : forall sr ss st a file leads',
+Corollary wait_refines_blocking_put_any_order : forall sr ss fx st a file leads',
   sorter_ok a_start sr -> sorter_ok s_off ss -> nb_inv st ->
-  ex_err (extract_reqs st (wa_n a) (wa_ids a) (wa_has_stat a) (wa_stat0 a)) = NC_NOERR ->
+  ex_err (extract_reqs fx st (wa_n a) (wa_ids a) (wa_has_stat a) (wa_stat0 a)) = NC_NOERR ->
   NoDup (map fst (flat_map lead_pairs
-          (flagged (put_lead (ex_st (extract_reqs st (wa_n a) (wa_ids a) (wa_has_stat a) (wa_stat0 a))))))) ->
-  Permutation leads' (flagged (put_lead (ex_st (extract_reqs st (wa_n a) (wa_ids a) (wa_has_stat a) (wa_stat0 a))))) ->
-  disk_eq (snd (wait_one sr ss st a file))
+          (flagged (put_lead (ex_st (extract_reqs fx st (wa_n a) (wa_ids a) (wa_has_stat a) (wa_stat0 a))))))) ->
+  Permutation leads' (flagged (put_lead (ex_st (extract_reqs fx st (wa_n a) (wa_ids a) (wa_has_stat a) (wa_stat0 a))))) ->
+  disk_eq (snd (wait_one sr ss fx st a file))
           (fold_left (fun f l => blocking_put f (st_mem st) l) leads' file).
 Proof.
-  intros sr ss st a file leads' Hsr Hss Hinv Herr Hnd Hp.
+  intros sr ss fx st a file leads' Hsr Hss Hinv Herr Hnd Hp.
   eapply disk_eq_trans; [apply wait_refines_blocking_put; assumption|].
   rewrite !fold_blocking_put. apply write_pairs_perm; [|exact Hnd].
   apply Permutation_flat_map. apply Permutation_sym. exact Hp.
@@ -350,16 +351,16 @@ Proof.
     + reflexivity.
 Qed.
 
-Lemma wait_one_unfold : forall sr ss st a file,
-  ex_err (extract_reqs st (wa_n a) (wa_ids a) (wa_has_stat a) (wa_stat0 a)) = NC_NOERR ->
-  wait_one sr ss st a file =
-  (let ex := extract_reqs st (wa_n a) (wa_ids a) (wa_has_stat a) (wa_stat0 a) in
+Lemma wait_one_unfold : forall sr ss fx st a file,
+  ex_err (extract_reqs fx st (wa_n a) (wa_ids a) (wa_has_stat a) (wa_stat0 a)) = NC_NOERR ->
+  wait_one sr ss fx st a file =
+  (let ex := extract_reqs fx st (wa_n a) (wa_ids a) (wa_has_stat a) (wa_stat0 a) in
    let ci := commit_io sr ss (ex_st ex) (ex_put ex) (ex_get ex) (0 <? Zlen (ex_put ex)) (0 <? Zlen (ex_get ex))
                        (newnumrecs_loop (ex_st ex)) file in
    let cp := commit_post (fst ci) (ex_nwl ex) (ex_nrl ex) in
    (mkwr (fst cp) NC_NOERR (ex_ids ex) (ex_stat ex) (snd cp), snd ci)).
 Proof.
-  intros sr ss st a file Herr. unfold wait_one. rewrite Herr.
+  intros sr ss fx st a file Herr. unfold wait_one. rewrite Herr.
   replace (negb (NC_NOERR =? NC_NOERR)) with false by reflexivity.
   cbv zeta.
   destruct (commit_io sr ss _ _ _ _ _ _ file) as [st2 f'].
@@ -380,39 +381,39 @@ Proof.
   destruct dw, dr; cbn [andb]; try destruct (st_numrecs st <? nn); reflexivity.
 Qed.
 
-Lemma wait_one_mem : forall sr ss st a file,
-  ex_err (extract_reqs st (wa_n a) (wa_ids a) (wa_has_stat a) (wa_stat0 a)) = NC_NOERR ->
-  st_mem (wr_st (fst (wait_one sr ss st a file))) =
-  (if 0 <? Zlen (ex_get (extract_reqs st (wa_n a) (wa_ids a) (wa_has_stat a) (wa_stat0 a)))
-   then mpi_read (snd (wait_one sr ss st a file)) (st_mem st)
-          (aggregate sr ss (get_lead (ex_st (extract_reqs st (wa_n a) (wa_ids a) (wa_has_stat a) (wa_stat0 a))))
-                     (ex_get (extract_reqs st (wa_n a) (wa_ids a) (wa_has_stat a) (wa_stat0 a))))
+Lemma wait_one_mem : forall sr ss fx st a file,
+  ex_err (extract_reqs fx st (wa_n a) (wa_ids a) (wa_has_stat a) (wa_stat0 a)) = NC_NOERR ->
+  st_mem (wr_st (fst (wait_one sr ss fx st a file))) =
+  (if 0 <? Zlen (ex_get (extract_reqs fx st (wa_n a) (wa_ids a) (wa_has_stat a) (wa_stat0 a)))
+   then mpi_read (snd (wait_one sr ss fx st a file)) (st_mem st)
+          (aggregate sr ss (get_lead (ex_st (extract_reqs fx st (wa_n a) (wa_ids a) (wa_has_stat a) (wa_stat0 a))))
+                     (ex_get (extract_reqs fx st (wa_n a) (wa_ids a) (wa_has_stat a) (wa_stat0 a))))
    else st_mem st).
 Proof.
-  intros sr ss st a file Herr. rewrite (wait_one_unfold sr ss st a file Herr). cbv zeta. cbn [fst snd wr_st].
+  intros sr ss fx st a file Herr. rewrite (wait_one_unfold sr ss fx st a file Herr). cbv zeta. cbn [fst snd wr_st].
   rewrite commit_post_mem, commit_io_mem, extract_mem. reflexivity.
 Qed.
 
 (* PARTIAL (gets): when the requests completed together read no file byte twice (and their buffers are
    distinct), every read buffer holds what the blocking reads deliver - reading the file AFTER the writes of
    the same wait.  Without the first hypothesis the statement is false: wait_refines_blocking_get_refuted (F2). *)
-Theorem wait_refines_blocking_get_partial : forall sr ss st a file,
+Theorem wait_refines_blocking_get_partial : forall sr ss fx st a file,
   sorter_ok a_start sr -> sorter_ok s_off ss -> nb_inv st ->
-  ex_err (extract_reqs st (wa_n a) (wa_ids a) (wa_has_stat a) (wa_stat0 a)) = NC_NOERR ->
+  ex_err (extract_reqs fx st (wa_n a) (wa_ids a) (wa_has_stat a) (wa_stat0 a)) = NC_NOERR ->
   NoDup (map fst (flat_map lead_pairs
-          (flagged (get_lead (ex_st (extract_reqs st (wa_n a) (wa_ids a) (wa_has_stat a) (wa_stat0 a))))))) ->
+          (flagged (get_lead (ex_st (extract_reqs fx st (wa_n a) (wa_ids a) (wa_has_stat a) (wa_stat0 a))))))) ->
   NoDup (map snd (flat_map lead_pairs
-          (flagged (get_lead (ex_st (extract_reqs st (wa_n a) (wa_ids a) (wa_has_stat a) (wa_stat0 a))))))) ->
-  disk_eq (st_mem (wr_st (fst (wait_one sr ss st a file))))
-          (fold_left (fun m l => blocking_get (snd (wait_one sr ss st a file)) m l)
-                     (flagged (get_lead (ex_st (extract_reqs st (wa_n a) (wa_ids a) (wa_has_stat a) (wa_stat0 a)))))
+          (flagged (get_lead (ex_st (extract_reqs fx st (wa_n a) (wa_ids a) (wa_has_stat a) (wa_stat0 a))))))) ->
+  disk_eq (st_mem (wr_st (fst (wait_one sr ss fx st a file))))
+          (fold_left (fun m l => blocking_get (snd (wait_one sr ss fx st a file)) m l)
+                     (flagged (get_lead (ex_st (extract_reqs fx st (wa_n a) (wa_ids a) (wa_has_stat a) (wa_stat0 a)))))
                      (st_mem st)).
 Proof.
-  intros sr ss st a file Hsr Hss Hinv Herr Hnd1 Hnd2.
+  intros sr ss fx st a file Hsr Hss Hinv Herr Hnd1 Hnd2.
   rewrite wait_one_mem by exact Herr. rewrite fold_blocking_get.
-  destruct (wait_get_pairs st (wa_n a) (wa_ids a) (wa_has_stat a) (wa_stat0 a) Hinv Herr) as [Hwf Hperm].
-  set (ex := extract_reqs st (wa_n a) (wa_ids a) (wa_has_stat a) (wa_stat0 a)) in *.
-  set (file1 := snd (wait_one sr ss st a file)).
+  destruct (wait_get_pairs fx st (wa_n a) (wa_ids a) (wa_has_stat a) (wa_stat0 a) Hinv Herr) as [Hwf Hperm].
+  set (ex := extract_reqs fx st (wa_n a) (wa_ids a) (wa_has_stat a) (wa_stat0 a)) in *.
+  set (file1 := snd (wait_one sr ss fx st a file)).
   assert (Hf : NoDup (map fst (flat_map areq_pairs (map (annotate (get_lead (ex_st ex))) (ex_get ex))))).
   { eapply Permutation_NoDup; [|exact Hnd1]. apply Permutation_map. apply Permutation_sym. exact Hperm. }
   assert (Hs : NoDup (map snd (flat_map areq_pairs (map (annotate (get_lead (ex_st ex))) (ex_get ex))))).
@@ -444,24 +445,10 @@ Theorem post_varn_preserves_inv : forall st k g parts xaddr data sw tag,
   nb_inv_full (fst (fst (post_varn st k g parts xaddr data sw tag))).
 Proof. exact (post_varn_inv post_varn_reqs_ok). Qed.
 
-Lemma extract_maxids : forall st n ids hs stat0,
-  maxPutID (ex_st (extract_reqs st n ids hs stat0)) = maxPutID st /\
-  maxGetID (ex_st (extract_reqs st n ids hs stat0)) = maxGetID st.
-Proof.
-  intros st n ids hs stat0. unfold extract_reqs.
-  destruct (n <? 0) eqn:E0.
-  - destruct ((n =? NC_PUT_REQ_ALL) || (n =? NC_REQ_ALL)); destruct ((n =? NC_GET_REQ_ALL) || (n =? NC_REQ_ALL)); split; reflexivity.
-  - destruct ((Zlen (get_reqs st) =? 0) && (n =? Zlen (put_lead st))); [split; reflexivity|].
-    destruct ((Zlen (put_reqs st) =? 0) && (n =? Zlen (get_lead st))); [split; reflexivity|].
-    destruct ((n =? Zlen (put_lead st) + Zlen (get_lead st)) && negb hs); [split; reflexivity|].
-    destruct (ex_mark ids 0 hs (put_lead st) (get_lead st) stat0 0 0 0 0 NC_NOERR)
-      as [[[[[[[pl1 gl1] stat1] nwl] nwr] nrl] nrr] err].
-    destruct (negb (err =? NC_NOERR)); [split; reflexivity|].
-    destruct (ex_copy ids pl1 gl1 (put_reqs st) (get_reqs st)) as [[ids' pe] ge].
-    destruct (if nwr =? 0 then (pl1, put_reqs st) else coalesce_nonlead pl1 (put_reqs st) 0) as [pl2 pr2].
-    destruct (if nrr =? 0 then (gl1, get_reqs st) else coalesce_nonlead gl1 (get_reqs st) 0) as [gl2 gr2].
-    split; reflexivity.
-Qed.
+Lemma extract_maxids : forall fx st n ids hs stat0,
+  maxPutID (ex_st (extract_reqs fx st n ids hs stat0)) = maxPutID st /\
+  maxGetID (ex_st (extract_reqs fx st n ids hs stat0)) = maxGetID st.
+Proof. intros fx st n ids hs stat0. destruct (extract_fields fx st n ids hs stat0) as (_ & H1 & H2 & _). split; assumption. Qed.
 
 Lemma commit_post_maxids : forall st nwl nrl,
   maxPutID (fst (commit_post st nwl nrl)) = maxPutID st /\ maxGetID (fst (commit_post st nwl nrl)) = maxGetID st.
@@ -488,24 +475,24 @@ Qed.
 Lemma Forall2_nil_l : forall A B (R : A -> B -> Prop) l, Forall2 R [] l -> l = [].
 Proof. intros A B R l H. inversion H. reflexivity. Qed.
 
-Theorem wait_one_preserves_inv : forall sr ss st a file,
-  nb_inv_full st -> wr_rc (fst (wait_one sr ss st a file)) = NC_NOERR ->
-  nb_inv_full (wr_st (fst (wait_one sr ss st a file))).
+Theorem wait_one_preserves_inv : forall sr ss fx st a file,
+  nb_inv_full st -> wr_rc (fst (wait_one sr ss fx st a file)) = NC_NOERR ->
+  nb_inv_full (wr_st (fst (wait_one sr ss fx st a file))).
 Proof.
-  intros sr ss st a file [Hinv Hmax] Hrc. split.
+  intros sr ss fx st a file [Hinv Hmax] Hrc. split.
   - apply wait_one_inv; assumption.
-  - assert (Herr : ex_err (extract_reqs st (wa_n a) (wa_ids a) (wa_has_stat a) (wa_stat0 a)) = NC_NOERR).
+  - assert (Herr : ex_err (extract_reqs fx st (wa_n a) (wa_ids a) (wa_has_stat a) (wa_stat0 a)) = NC_NOERR).
     { unfold wait_one in Hrc.
-      destruct (negb (ex_err (extract_reqs st (wa_n a) (wa_ids a) (wa_has_stat a) (wa_stat0 a)) =? NC_NOERR)) eqn:E.
+      destruct (negb (ex_err (extract_reqs fx st (wa_n a) (wa_ids a) (wa_has_stat a) (wa_stat0 a)) =? NC_NOERR)) eqn:E.
       - cbn [fst wr_rc] in Hrc. rewrite Hrc in E. discriminate E.
       - apply negb_false_iff in E. apply Z.eqb_eq in E. exact E. }
-    destruct (wait_one_leads sr ss st a file Hinv Hrc) as [Hpl Hgl].
-    destruct (extract_leads_same st (wa_n a) (wa_ids a) (wa_has_stat a) (wa_stat0 a)) as [Hsp Hsg].
+    destruct (wait_one_leads sr ss fx st a file Hinv Hrc) as [Hpl Hgl].
+    destruct (extract_leads_same fx st (wa_n a) (wa_ids a) (wa_has_stat a) (wa_stat0 a)) as [Hsp Hsg].
     apply (maxid_ok_shrink st); [exact Hmax | | | | ].
-    + rewrite (wait_one_unfold sr ss st a file Herr). cbv zeta. cbn [fst wr_st].
+    + rewrite (wait_one_unfold sr ss fx st a file Herr). cbv zeta. cbn [fst wr_st].
       rewrite (proj1 (commit_post_maxids _ _ _)), (proj1 (commit_io_maxids _ _ _ _ _ _ _ _ _)).
       apply extract_maxids.
-    + rewrite (wait_one_unfold sr ss st a file Herr). cbv zeta. cbn [fst wr_st].
+    + rewrite (wait_one_unfold sr ss fx st a file Herr). cbv zeta. cbn [fst wr_st].
       rewrite (proj2 (commit_post_maxids _ _ _)), (proj2 (commit_io_maxids _ _ _ _ _ _ _ _ _)).
       apply extract_maxids.
     + destruct (put_lead st) as [|l0 r0] eqn:Ep; [left | right; discriminate].
@@ -515,44 +502,112 @@ Proof.
 Qed.
 
 (* a history in which every posted request is an accepted one and every wait returns NC_NOERR *)
-Fixpoint run_ok (sr : list areq -> list areq) (ss : list seg -> list seg) (sf : nbstate * disk) (ops : list nbop) : Prop :=
+Fixpoint run_ok (sr : list areq -> list areq) (ss : list seg -> list seg) (fx : bool) (sf : nbstate * disk) (ops : list nbop) : Prop :=
   match ops with
   | [] => True
   | o :: r => nbop_ok o /\
               (match o with
-               | NWait a => wr_rc (fst (wait_one sr ss (fst sf) a (snd sf))) = NC_NOERR
+               | NWait a => wr_rc (fst (wait_one sr ss fx (fst sf) a (snd sf))) = NC_NOERR
                | _ => True
                end) /\
-              run_ok sr ss (nb_step sr ss sf o) r
+              run_ok sr ss fx (nb_step sr ss fx sf o) r
   end.
 
-(* queue_inv over ALL histories (induction over the operation list) *)
-Theorem nb_run_inv : forall sr ss ops sf,
-  nb_inv_full (fst sf) -> run_ok sr ss sf ops -> nb_inv_full (fst (nb_run sr ss sf ops)).
+(* queue_inv over ALL histories whose waits succeed (induction over the operation list), both variants *)
+Theorem nb_run_inv : forall sr ss fx ops sf,
+  nb_inv_full (fst sf) -> run_ok sr ss fx sf ops -> nb_inv_full (fst (nb_run sr ss fx sf ops)).
 Proof.
-  intros sr ss ops. induction ops as [|o ops IH]; intros sf Hinv Hok; [exact Hinv|].
+  intros sr ss fx ops. induction ops as [|o ops IH]; intros sf Hinv Hok; [exact Hinv|].
   destruct Hok as (Hop & Hw & Hrest).
   unfold nb_run. cbn [fold_left]. apply IH; [|exact Hrest].
   destruct sf as [st f]. cbn [fst snd] in *. unfold nb_step.
   destruct o as [k g s c t xa d sw tag | k g ps xa d sw tag | a | n ids s0]; cbn [nbop_ok] in Hop.
   - cbn [fst]. apply post_varm_preserves_inv; assumption.
   - cbn [fst]. apply post_varn_preserves_inv; assumption.
-  - pose proof (wait_one_preserves_inv sr ss st a f Hinv Hw) as Hp.
-    destruct (wait_one sr ss st a f) as [r f'] eqn:Ew. cbn [fst] in *. exact Hp.
+  - pose proof (wait_one_preserves_inv sr ss fx st a f Hinv Hw) as Hp.
+    destruct (wait_one sr ss fx st a f) as [r f'] eqn:Ew. cbn [fst] in *. exact Hp.
   - cbn [fst]. apply cancel_inv. exact Hinv.
 Qed.
 
-Corollary reachable_inv : forall ops, run_ok isort_reqs isort_segs (init_state, empty_disk) ops ->
-  nb_inv_full (fst (reach ops)).
-Proof. intros ops H. apply nb_run_inv; [exact nb_inv_full_init | exact H]. Qed.
+Corollary reachable_inv : forall fx ops, run_ok isort_reqs isort_segs fx (init_state, empty_disk) ops ->
+  nb_inv_full (fst (reach fx ops)).
+Proof. intros fx ops H. apply nb_run_inv; [exact nb_inv_full_init | exact H]. Qed.
+
+(* ---------- the repaired variant (fx = true): a wait that FAILS also preserves the invariant, so it holds
+   over ALL histories of accepted posts, whatever the waits return *)
+Lemma map_unflag_nil : forall l, map unflag l = [] -> l = [].
+Proof. intros [|x l] H; [reflexivity | discriminate H]. Qed.
+
+Theorem wait_one_preserves_inv_fixed : forall sr ss st a file,
+  nb_inv_full st -> nb_inv_full (wr_st (fst (wait_one sr ss true st a file))).
+Proof.
+  intros sr ss st a file Hfull.
+  destruct (Z.eq_dec (wr_rc (fst (wait_one sr ss true st a file))) NC_NOERR) as [Hrc | Hrc].
+  - apply wait_one_preserves_inv; assumption.
+  - destruct Hfull as [Hinv Hmax]. split; [apply wait_one_inv_fixed; exact Hinv|].
+    destruct (wait_one_failed_fixed sr ss st a file Hinv Hrc) as (_ & _ & Hpl & Hgl & _ & _).
+    assert (Herr : ex_err (extract_reqs true st (wa_n a) (wa_ids a) (wa_has_stat a) (wa_stat0 a)) <> NC_NOERR).
+    { intro E. apply Hrc. rewrite (wait_one_unfold sr ss true st a file E). reflexivity. }
+    assert (Hst : wr_st (fst (wait_one sr ss true st a file)) = ex_st (extract_reqs true st (wa_n a) (wa_ids a) (wa_has_stat a) (wa_stat0 a))).
+    { unfold wait_one.
+      destruct (negb (ex_err (extract_reqs true st (wa_n a) (wa_ids a) (wa_has_stat a) (wa_stat0 a)) =? NC_NOERR)) eqn:E; [reflexivity|].
+      apply negb_false_iff in E. apply Z.eqb_eq in E. contradiction. }
+    apply (maxid_ok_shrink st); [exact Hmax | | | | ].
+    + rewrite Hst. apply extract_maxids.
+    + rewrite Hst. apply extract_maxids.
+    + destruct (put_lead st) as [|l0 r0] eqn:Ep; [left | right; discriminate]. rewrite Hpl. reflexivity.
+    + destruct (get_lead st) as [|l0 r0] eqn:Eg; [left | right; discriminate]. rewrite Hgl. reflexivity.
+Qed.
+
+Theorem nb_run_inv_fixed : forall sr ss ops sf,
+  nb_inv_full (fst sf) -> Forall nbop_ok ops -> nb_inv_full (fst (nb_run sr ss true sf ops)).
+Proof.
+  intros sr ss ops. induction ops as [|o ops IH]; intros sf Hinv Hok; [exact Hinv|].
+  inversion Hok as [|? ? Hop Hrest]; subst.
+  unfold nb_run. cbn [fold_left]. apply IH; [|exact Hrest].
+  destruct sf as [st f]. cbn [fst snd] in *. unfold nb_step.
+  destruct o as [k g s c t xa d sw tag | k g ps xa d sw tag | a | n ids s0]; cbn [nbop_ok] in Hop.
+  - cbn [fst]. apply post_varm_preserves_inv; assumption.
+  - cbn [fst]. apply post_varn_preserves_inv; assumption.
+  - pose proof (wait_one_preserves_inv_fixed sr ss st a f Hinv) as Hp.
+    destruct (wait_one sr ss true st a f) as [r f'] eqn:Ew. cbn [fst] in *. exact Hp.
+  - cbn [fst]. apply cancel_inv. exact Hinv.
+Qed.
+
+Corollary reachable_inv_fixed : forall ops, Forall nbop_ok ops -> nb_inv_full (fst (reach true ops)).
+Proof. intros ops H. apply nb_run_inv_fixed; [exact nb_inv_full_init | exact H]. Qed.
+
+(* ---------- the statements that were refuted for the snapshot hold IN FULL for the repaired variant *)
+Theorem status_own : status_own_full true.
+Proof.
+  intros ops ids stat0 Hok Hlen. cbv zeta. intros Herr l i Hin Hf Hs.
+  destruct (reachable_inv_fixed ops Hok) as [Hinv _].
+  eapply (status_own_fixed (fst (reach true ops)) (Zlen ids) ids stat0); try eassumption; try reflexivity.
+  apply Proofs_Disk.Zlen_nonneg.
+Qed.
+
+Theorem wait_subset_frame : wait_subset_frame_full true.
+Proof.
+  intros ops a file Hok Hn. cbv zeta. intros Hrc l Hin Hnot.
+  destruct (reachable_inv_fixed ops Hok) as [Hinv _].
+  assert (H0 : 0 <= wa_n a) by (rewrite Hn; apply Proofs_Disk.Zlen_nonneg).
+  destruct (wait_subset_frame_fixed isort_reqs isort_segs (fst (reach true ops)) a file Hinv H0 Hn Hrc l Hin Hnot)
+    as (l' & Hin' & Hsame & _).
+  apply in_map_iff. exists l'. split; [|exact Hin'].
+  symmetry. apply Hsame.
+Qed.
 
 (* ---------------------------------------------------------------- a failed wait is NOT without effect *)
 (* full statement: a wait that returns an error leaves the queues as they were *)
-Definition failed_wait_no_effect_full : Prop :=
+Definition failed_wait_no_effect_full (fx : bool) : Prop :=
   forall ops a file, Forall nbop_ok ops ->
-    let st := fst (reach ops) in
-    let r := fst (wait_one isort_reqs isort_segs st a file) in
-    wr_rc r <> NC_NOERR -> put_lead (wr_st r) = put_lead st /\ get_lead (wr_st r) = get_lead st.
+    let st := fst (reach fx ops) in
+    let r := fst (wait_one isort_reqs isort_segs fx st a file) in
+    wr_rc r <> NC_NOERR ->
+    (* nothing is written, delivered or marked; only the (dangling) status pointers are reset *)
+    snd (wait_one isort_reqs isort_segs fx st a file) = file /\ wr_ev r = [] /\
+    put_lead (wr_st r) = map unflag (put_lead st) /\ get_lead (wr_st r) = map unflag (get_lead st) /\
+    put_reqs (wr_st r) = put_reqs st /\ get_reqs (wr_st r) = get_reqs st.
 
 Definition two_puts_one_get : list nbop :=
   two_puts ++ [NPostM KIget gA [3] [1] None 3000 [] false 2].
@@ -564,26 +619,42 @@ Qed.
 
 (* witness: two puts and one get pending, wait(2, [0; 0]) (a duplicated id, no shortcut): NC_EINVAL_REQUEST,
    but the request with id 0 keeps its NC_REQ_TO_FREE flag; naming it again can never succeed *)
-Theorem failed_wait_no_effect_refuted : ~ failed_wait_no_effect_full.
+Theorem failed_wait_no_effect_old_refuted : ~ failed_wait_no_effect_full false.
 Proof.
   intro H.
   pose (a := mkwa 2 [0; 0] true [-99; -99]).
   specialize (H two_puts_one_get a empty_disk two_puts_one_get_ok).
   cbv zeta in H.
-  assert (E : wr_rc (fst (wait_one isort_reqs isort_segs (fst (reach two_puts_one_get)) a empty_disk)) <> NC_NOERR)
+  assert (E : wr_rc (fst (wait_one isort_reqs isort_segs false (fst (reach false two_puts_one_get)) a empty_disk)) <> NC_NOERR)
     by (vm_compute; discriminate).
-  destruct (H E) as [Hp _].
-  assert (C : l_to_free (hd dummy_lead (put_lead (wr_st (fst (wait_one isort_reqs isort_segs (fst (reach two_puts_one_get)) a empty_disk)))))
-              = l_to_free (hd dummy_lead (put_lead (fst (reach two_puts_one_get))))) by (rewrite Hp; reflexivity).
+  destruct (H E) as (_ & _ & Hp & _).
+  assert (C : l_to_free (hd dummy_lead (put_lead (wr_st (fst (wait_one isort_reqs isort_segs false (fst (reach false two_puts_one_get)) a empty_disk)))))
+              = l_to_free (hd dummy_lead (map unflag (put_lead (fst (reach false two_puts_one_get)))))) by (rewrite Hp; reflexivity).
   vm_compute in C. discriminate C.
 Qed.
 
 Example poisoned_request_cannot_be_completed :
   let a := mkwa 2 [0; 0] true [-99; -99] in
-  let st1 := wr_st (fst (wait_one isort_reqs isort_segs (fst (reach two_puts_one_get)) a empty_disk)) in
-  wr_rc (fst (wait_one isort_reqs isort_segs st1 (mkwa 1 [0] true [-99]) empty_disk)) = NC_EINVAL_REQUEST
+  let st1 := wr_st (fst (wait_one isort_reqs isort_segs false (fst (reach false two_puts_one_get)) a empty_disk)) in
+  wr_rc (fst (wait_one isort_reqs isort_segs false st1 (mkwa 1 [0] true [-99]) empty_disk)) = NC_EINVAL_REQUEST
   /\ nreqs st1 = 3.
 Proof. vm_compute. split; reflexivity. Qed.
+
+(* ... and with the repair a failed wait has no effect *)
+Theorem failed_wait_no_effect : failed_wait_no_effect_full true.
+Proof.
+  intros ops a file Hok. cbv zeta. intros Hrc.
+  destruct (reachable_inv_fixed ops Hok) as [Hinv _].
+  exact (wait_one_failed_fixed isort_reqs isort_segs (fst (reach true ops)) a file Hinv Hrc).
+Qed.
+
+Example repaired_request_can_be_completed :
+  let a := mkwa 2 [0; 0] true [-99; -99] in
+  let st1 := wr_st (fst (wait_one isort_reqs isort_segs true (fst (reach true two_puts_one_get)) a empty_disk)) in
+  wr_rc (fst (wait_one isort_reqs isort_segs true (fst (reach true two_puts_one_get)) a empty_disk)) = NC_EINVAL_REQUEST /\
+  wr_rc (fst (wait_one isort_reqs isort_segs true st1 (mkwa 1 [0] true [-99]) empty_disk)) = NC_NOERR /\
+  nreqs (wr_st (fst (wait_one isort_reqs isort_segs true st1 (mkwa 1 [0] true [-99]) empty_disk))) = 2.
+Proof. vm_compute. repeat split; reflexivity. Qed.
 
 (* ---------------------------------------------------------------- numrecs after a wait (F1 fixed in /repo) *)
 Lemma commit_post_numrecs : forall st nwl nrl, st_numrecs (fst (commit_post st nwl nrl)) = st_numrecs st.
@@ -619,24 +690,24 @@ Proof.
   - destruct (IH Hin) as [x [H1 H2]]. exists x. split; right; assumption.
 Qed.
 
-Lemma flagged_put_extracted : forall st n ids hs stat0 l,
-  nb_inv st -> ex_err (extract_reqs st n ids hs stat0) = NC_NOERR ->
-  In l (flagged (put_lead (ex_st (extract_reqs st n ids hs stat0)))) ->
-  0 < Zlen (ex_put (extract_reqs st n ids hs stat0)).
+Lemma flagged_put_extracted : forall fx st n ids hs stat0 l,
+  nb_inv st -> ex_err (extract_reqs fx st n ids hs stat0) = NC_NOERR ->
+  In l (flagged (put_lead (ex_st (extract_reqs fx st n ids hs stat0)))) ->
+  0 < Zlen (ex_put (extract_reqs fx st n ids hs stat0)).
 Proof.
-  intros st n ids hs stat0 l Hinv Herr Hl.
-  destruct (extract_put_slices st n ids hs stat0 Hinv Herr) as [Hperm _].
-  destruct (extract_leads_same st n ids hs stat0) as [Hsame _].
+  intros fx st n ids hs stat0 l Hinv Herr Hl.
+  destruct (extract_put_slices fx st n ids hs stat0 Hinv Herr) as [Hperm _].
+  destruct (extract_leads_same fx st n ids hs stat0) as [Hsame _].
   unfold flagged in Hl. apply filter_In in Hl. destruct Hl as [Hin Hf].
   destruct (Forall2_In_zip_r _ _ _ _ _ l Hsame Hin) as [l0 [Hz Hl0]].
   destruct Hinv as [[_ [_ [Hs _]]] _].
   pose proof (slices_ok_lead_reqs_pos _ _ 0 0 ltac:(lia) Hs l0 Hl0) as Hpos.
   apply Permutation_length in Hperm.
-  assert (Hge : (length (lead_reqs (put_reqs st) l0) <= length (ex_put (extract_reqs st n ids hs stat0)))%nat).
+  assert (Hge : (length (lead_reqs (put_reqs st) l0) <= length (ex_put (extract_reqs fx st n ids hs stat0)))%nat).
   { rewrite Hperm.
     set (F := fun p : lead * lead => if l_to_free (snd p) then lead_reqs (put_reqs st) (fst p) else []).
     clear Hperm Hsame.
-    induction (zip (put_lead st) (put_lead (ex_st (extract_reqs st n ids hs stat0)))) as [|p z IHz]; [destruct Hz|].
+    induction (zip (put_lead st) (put_lead (ex_st (extract_reqs fx st n ids hs stat0)))) as [|p z IHz]; [destruct Hz|].
     cbn [flat_map]. rewrite app_length. destruct Hz as [E | Hz].
     - subst p. unfold F at 1. cbn [fst snd]. rewrite Hf. lia.
     - specialize (IHz Hz). lia. }
@@ -645,37 +716,24 @@ Qed.
 
 (* FULL statement, proved (the library was repaired): after a successful wait the number of records covers
    every completed put to a record variable *)
-Theorem numrecs_after_wait : forall sr ss st a file,
-  nb_inv st -> wr_rc (fst (wait_one sr ss st a file)) = NC_NOERR ->
-  forall l, In l (flagged (put_lead (ex_st (extract_reqs st (wa_n a) (wa_ids a) (wa_has_stat a) (wa_stat0 a))))) ->
+Theorem numrecs_after_wait : forall sr ss fx st a file,
+  nb_inv st -> wr_rc (fst (wait_one sr ss fx st a file)) = NC_NOERR ->
+  forall l, In l (flagged (put_lead (ex_st (extract_reqs fx st (wa_n a) (wa_ids a) (wa_has_stat a) (wa_stat0 a))))) ->
             g_isrec (l_geom l) = true ->
-            l_max_rec l <= st_numrecs (wr_st (fst (wait_one sr ss st a file))) /\
-            st_numrecs st <= st_numrecs (wr_st (fst (wait_one sr ss st a file))).
+            l_max_rec l <= st_numrecs (wr_st (fst (wait_one sr ss fx st a file))) /\
+            st_numrecs st <= st_numrecs (wr_st (fst (wait_one sr ss fx st a file))).
 Proof.
-  intros sr ss st a file Hinv Hrc l Hl Hrec.
-  assert (Herr : ex_err (extract_reqs st (wa_n a) (wa_ids a) (wa_has_stat a) (wa_stat0 a)) = NC_NOERR).
+  intros sr ss fx st a file Hinv Hrc l Hl Hrec.
+  assert (Herr : ex_err (extract_reqs fx st (wa_n a) (wa_ids a) (wa_has_stat a) (wa_stat0 a)) = NC_NOERR).
   { unfold wait_one in Hrc.
-    destruct (negb (ex_err (extract_reqs st (wa_n a) (wa_ids a) (wa_has_stat a) (wa_stat0 a)) =? NC_NOERR)) eqn:E.
+    destruct (negb (ex_err (extract_reqs fx st (wa_n a) (wa_ids a) (wa_has_stat a) (wa_stat0 a)) =? NC_NOERR)) eqn:E.
     - cbn [fst wr_rc] in Hrc. rewrite Hrc in E. discriminate E.
     - apply negb_false_iff in E. apply Z.eqb_eq in E. exact E. }
-  pose proof (flagged_put_extracted st _ _ _ _ l Hinv Herr Hl) as Hput.
-  rewrite (wait_one_unfold sr ss st a file Herr). cbv zeta. cbn [fst wr_st].
+  pose proof (flagged_put_extracted fx st _ _ _ _ l Hinv Herr Hl) as Hput.
+  rewrite (wait_one_unfold sr ss fx st a file Herr). cbv zeta. cbn [fst wr_st].
   rewrite commit_post_numrecs.
-  set (ex := extract_reqs st (wa_n a) (wa_ids a) (wa_has_stat a) (wa_stat0 a)) in *.
-  assert (Hn0 : st_numrecs (ex_st ex) = st_numrecs st).
-  { unfold ex, extract_reqs.
-    destruct (wa_n a <? 0).
-    - destruct ((wa_n a =? NC_PUT_REQ_ALL) || (wa_n a =? NC_REQ_ALL)); destruct ((wa_n a =? NC_GET_REQ_ALL) || (wa_n a =? NC_REQ_ALL)); reflexivity.
-    - destruct ((Zlen (get_reqs st) =? 0) && (wa_n a =? Zlen (put_lead st))); [reflexivity|].
-      destruct ((Zlen (put_reqs st) =? 0) && (wa_n a =? Zlen (get_lead st))); [reflexivity|].
-      destruct ((wa_n a =? Zlen (put_lead st) + Zlen (get_lead st)) && negb (wa_has_stat a)); [reflexivity|].
-      destruct (ex_mark (wa_ids a) 0 (wa_has_stat a) (put_lead st) (get_lead st) (wa_stat0 a) 0 0 0 0 NC_NOERR)
-        as [[[[[[[pl1 gl1] stat1] nwl] nwr] nrl] nrr] err].
-      destruct (negb (err =? NC_NOERR)); [reflexivity|].
-      destruct (ex_copy (wa_ids a) pl1 gl1 (put_reqs st) (get_reqs st)) as [[ids' pe] ge].
-      destruct (if nwr =? 0 then (pl1, put_reqs st) else coalesce_nonlead pl1 (put_reqs st) 0) as [pl2 pr2].
-      destruct (if nrr =? 0 then (gl1, get_reqs st) else coalesce_nonlead gl1 (get_reqs st) 0) as [gl2 gr2].
-      reflexivity. }
+  set (ex := extract_reqs fx st (wa_n a) (wa_ids a) (wa_has_stat a) (wa_stat0 a)) in *.
+  assert (Hn0 : st_numrecs (ex_st ex) = st_numrecs st) by apply extract_fields.
   unfold flagged in Hl. apply filter_In in Hl. destruct Hl as [Hin Hf].
   destruct (newnumrecs_covers_flagged (ex_st ex) l Hin Hf Hrec) as [H1 H2].
   unfold commit_io. cbn [fst].
@@ -704,19 +762,19 @@ Proof.
 Qed.
 
 (* the write of ONE process inside a wait, on any file *)
-Lemma rank_put_correct : forall sr ss st n ids hs stat0 f,
+Lemma rank_put_correct : forall sr ss fx st n ids hs stat0 f,
   sorter_ok a_start sr -> sorter_ok s_off ss -> nb_inv st ->
-  ex_err (extract_reqs st n ids hs stat0) = NC_NOERR ->
-  NoDup (map fst (flat_map lead_pairs (flagged (put_lead (ex_st (extract_reqs st n ids hs stat0)))))) ->
-  disk_eq (mpi_write f (st_mem st) (aggregate sr ss (put_lead (ex_st (extract_reqs st n ids hs stat0)))
-                                              (ex_put (extract_reqs st n ids hs stat0))))
+  ex_err (extract_reqs fx st n ids hs stat0) = NC_NOERR ->
+  NoDup (map fst (flat_map lead_pairs (flagged (put_lead (ex_st (extract_reqs fx st n ids hs stat0)))))) ->
+  disk_eq (mpi_write f (st_mem st) (aggregate sr ss (put_lead (ex_st (extract_reqs fx st n ids hs stat0)))
+                                              (ex_put (extract_reqs fx st n ids hs stat0))))
           (fold_left (fun f l => blocking_put f (st_mem st) l)
-                     (flagged (put_lead (ex_st (extract_reqs st n ids hs stat0)))) f).
+                     (flagged (put_lead (ex_st (extract_reqs fx st n ids hs stat0)))) f).
 Proof.
-  intros sr ss st n ids hs stat0 f Hsr Hss Hinv Herr Hnd.
+  intros sr ss fx st n ids hs stat0 f Hsr Hss Hinv Herr Hnd.
   rewrite fold_blocking_put.
-  destruct (wait_put_pairs st n ids hs stat0 Hinv Herr) as [Hwf Hperm].
-  set (ex := extract_reqs st n ids hs stat0) in *.
+  destruct (wait_put_pairs fx st n ids hs stat0 Hinv Herr) as [Hwf Hperm].
+  set (ex := extract_reqs fx st n ids hs stat0) in *.
   assert (Hnd' : NoDup (map fst (flat_map areq_pairs (map (annotate (put_lead (ex_st ex))) (ex_put ex))))).
   { eapply Permutation_NoDup; [|exact Hnd]. apply Permutation_map. apply Permutation_sym. exact Hperm. }
   eapply disk_eq_trans.
@@ -730,29 +788,29 @@ Proof. intros A p l H. induction H as [|x l Hx H IH]; [reflexivity|]. cbn [exist
 (* collective wait (ncmpi_wait_all) of any number of processes with any arguments per process: when every
    process's extraction succeeds and no process writes a file byte twice, the file is what the blocking puts
    give, process after process (the MPI-IO model of this development applies the file views in rank order) *)
-Theorem wait_coll_refines_blocking_put : forall sr ss (sa : list (nbstate * waitargs)) file,
+Theorem wait_coll_refines_blocking_put : forall sr ss fx (sa : list (nbstate * waitargs)) file,
   sorter_ok a_start sr -> sorter_ok s_off ss ->
   Forall (fun p => nb_inv (fst p)) sa ->
-  Forall (fun p => ex_err (extract_reqs (fst p) (wa_n (snd p)) (wa_ids (snd p)) (wa_has_stat (snd p)) (wa_stat0 (snd p))) = NC_NOERR) sa ->
+  Forall (fun p => ex_err (extract_reqs fx (fst p) (wa_n (snd p)) (wa_ids (snd p)) (wa_has_stat (snd p)) (wa_stat0 (snd p))) = NC_NOERR) sa ->
   Forall (fun p => NoDup (map fst (flat_map lead_pairs (flagged (put_lead (ex_st
-            (extract_reqs (fst p) (wa_n (snd p)) (wa_ids (snd p)) (wa_has_stat (snd p)) (wa_stat0 (snd p))))))))) sa ->
-  disk_eq (snd (wait_coll sr ss (map fst sa) (map snd sa) file))
+            (extract_reqs fx (fst p) (wa_n (snd p)) (wa_ids (snd p)) (wa_has_stat (snd p)) (wa_stat0 (snd p))))))))) sa ->
+  disk_eq (snd (wait_coll sr ss fx (map fst sa) (map snd sa) file))
           (fold_left (fun f p =>
               fold_left (fun f l => blocking_put f (st_mem (fst p)) l)
-                        (flagged (put_lead (ex_st (extract_reqs (fst p) (wa_n (snd p)) (wa_ids (snd p)) (wa_has_stat (snd p)) (wa_stat0 (snd p))))))
+                        (flagged (put_lead (ex_st (extract_reqs fx (fst p) (wa_n (snd p)) (wa_ids (snd p)) (wa_has_stat (snd p)) (wa_stat0 (snd p))))))
                         f)
             sa file).
 Proof.
-  intros sr ss sa file Hsr Hss Hinv Herr Hnd.
+  intros sr ss fx sa file Hsr Hss Hinv Herr Hnd.
   unfold wait_coll.
   assert (Hzip : zip (map fst sa) (map snd sa) = sa).
   { clear. induction sa as [|[s a] sa IH]; [reflexivity|]. cbn [map zip fst snd]. rewrite IH. reflexivity. }
   rewrite Hzip.
-  set (EX := fun p : nbstate * waitargs => extract_reqs (fst p) (wa_n (snd p)) (wa_ids (snd p)) (wa_has_stat (snd p)) (wa_stat0 (snd p))).
+  set (EX := fun p : nbstate * waitargs => extract_reqs fx (fst p) (wa_n (snd p)) (wa_ids (snd p)) (wa_has_stat (snd p)) (wa_stat0 (snd p))).
   assert (Hany : existsb (fun ex => negb (ex_err ex =? NC_NOERR)) (map EX sa) = false).
   { apply existsb_false_Forall. apply Forall_map. eapply Forall_impl; [|exact Herr].
     intros p Hp. cbv beta. unfold EX. rewrite Hp. reflexivity. }
-  change (map (fun p : nbstate * waitargs => extract_reqs (fst p) (wa_n (snd p)) (wa_ids (snd p)) (wa_has_stat (snd p)) (wa_stat0 (snd p))) sa)
+  change (map (fun p : nbstate * waitargs => extract_reqs fx (fst p) (wa_n (snd p)) (wa_ids (snd p)) (wa_has_stat (snd p)) (wa_stat0 (snd p))) sa)
     with (map EX sa).
   rewrite Hany. cbn [snd].
   set (dw := existsb (fun ex => 0 <? Zlen (ex_put ex)) (map EX sa)).
@@ -775,7 +833,7 @@ Proof.
         eapply disk_eq_trans; [apply mpi_write_cong; exact Hff|].
         apply rank_put_correct; assumption.
       + specialize (Hd eq_refl). inversion Hd as [|? ? Hd1 Hd2]; subst.
-        destruct (wait_put_pairs (fst p) (wa_n (snd p)) (wa_ids (snd p)) (wa_has_stat (snd p)) (wa_stat0 (snd p)) Hi1 He1) as [_ Hperm].
+        destruct (wait_put_pairs fx (fst p) (wa_n (snd p)) (wa_ids (snd p)) (wa_has_stat (snd p)) (wa_stat0 (snd p)) Hi1 He1) as [_ Hperm].
         fold (EX p) in Hperm. rewrite Hd1 in Hperm. cbn [map flat_map] in Hperm.
         apply Permutation_nil_pairs in Hperm.
         rewrite fold_blocking_put. rewrite Hperm. exact Hff. }
